@@ -9,8 +9,8 @@ The model mirrors the Go code as it is, including its oddities:
   sign ("\x+f" is byte 15, "\x-1" is byte 255), a string runs across newlines to EOF, the
   characters of an escape are not counted in the column, and EOF inside `\u`/`\U` writes the
   partial escape twice (once in the read loop, once padded with NULs after ParseInt fails);
-* ill-formed UTF-8 inside a string literal becomes U+FFFD (three bytes) per bad byte, whereas the
-  full parser keeps the source bytes (C25 finding; `lexRef`/`scanBytesPatched` are the reference);
+* ill-formed UTF-8 inside a string literal becomes U+FFFD (three bytes) per bad byte, as in the
+  full parser's lexer today (`lexRef`/`scanBytesPatched` model the copy-the-byte alternative);
 * `Scan`'s three blocks (pending import, pending package, bracket context) all run on every
   token; unmatched closers are ignored; a pending import/package at EOF is dropped silently.
 
@@ -30,8 +30,8 @@ def stripBom (bs : List UInt8) : List UInt8 :=
 
 /-- Runes at or above `rawBase` stand for one ill-formed input byte `b` (`rawBase + b`).
     Go's `ReadRune` returns U+FFFD (width 1) there; the mark only remembers which byte it was, so
-    that the reference lexer `lexRef` (string values as the full parser computes them: source
-    bytes copied) can be expressed. The model of the Go code treats a marked rune exactly like
+    that the alternative lexer `lexRef` (ill-formed source bytes of a literal copied, as protoc
+    does) can be expressed. The model of the Go code treats a marked rune exactly like
     U+FFFD (`goRune`; `encodeRune` of anything above U+10FFFF is the encoding of U+FFFD). -/
 def rawBase : Nat := 0x110000
 
@@ -157,8 +157,8 @@ def writeRuneInt (i : Int) : List UInt8 :=
 def encRunes (rs : List Nat) : List UInt8 := (rs.map encodeRune).flatten
 
 /-- a character of a string literal that is neither the quote nor a backslash:
-    `buf.WriteRune(c)`. With `raw` (NOT the Go code: the reference / the proposed fix) an
-    ill-formed source byte is copied as it is, which is what the full parser does. -/
+    `buf.WriteRune(c)`. With `raw` (NOT the Go code: the copy-the-byte alternative) an
+    ill-formed source byte is copied as it is, which is what protoc does. -/
 def writePlain (raw : Bool) (c : Nat) : List UInt8 :=
   if raw ∧ rawBase ≤ c then [UInt8.ofNat (c - rawBase)] else encodeRune (goRune c)
 
@@ -305,8 +305,8 @@ def lexWith (raw : Bool) (src : List UInt8) : List Token :=
 /-- the whole token stream of a source file, as fastscan's lexer produces it -/
 def lex (src : List UInt8) : List Token := lexWith false src
 
-/-- the reference token stream: identical except that string literals keep ill-formed source
-    bytes as they are (the value the full parser gives the literal) -/
+/-- the alternative token stream: identical except that string literals keep ill-formed source
+    bytes as they are (the value protoc gives the literal; NOT what the Go code does) -/
 def lexRef (src : List UInt8) : List Token := lexWith true src
 
 /-! ## `Scan` -/
@@ -478,7 +478,7 @@ def scanToks (toks : List Token) : Out := (run St.init toks).out
 /-- `fastscan.Scan` on the bytes of a file -/
 def scanBytes (src : List UInt8) : Out := scanToks (lex src)
 
-/-- `Scan` after the proposed fix of the lexer (ill-formed bytes of a literal copied) -/
+/-- `Scan` with the alternative lexer (ill-formed bytes of a literal copied) -/
 def scanBytesPatched (src : List UInt8) : Out := scanToks (lexRef src)
 
 /-! ## the specification: top-level structure of a file
